@@ -2,8 +2,8 @@ package main
 
 import (
 	"fmt"
-	"os"
 	"go/types"
+	"os"
 	"strings"
 
 	"golang.org/x/tools/go/ssa"
@@ -13,7 +13,7 @@ type intrinsic func(e *Exec, args []Value, st string) Value
 
 // packages whose init functions are executed (concretely) before exploration
 var stdInit = map[string]bool{"io": true, "errors": true, "bytes": true, "encoding/binary": true, "sort": true, "slices": true,
-	"maps": true, "strings": true, "unicode/utf16": true, "unicode/utf8": true, "math/bits": true, "math": true, "io/fs": false}
+	"maps": true, "strings": true, "unicode/utf16": true, "unicode/utf8": true, "math/bits": true, "math": true, "io/fs": false, "time": true, "strconv": true}
 
 func initAllowed(path string) bool {
 	return strings.HasPrefix(path, "seehuhn.de/go/") || strings.HasPrefix(path, "golang.org/x/exp/") || stdInit[path]
